@@ -510,9 +510,10 @@ pub trait Vec1View<T>: TIter<T> {
             self.rolling_apply_to::<O, _, _>(window, f, out);
             None
         } else {
-            assert!(window > 0, "window must be greater than 0");
+            // an empty series has an empty result whatever the window (callers clamp the window to the length)
+            assert!(window > 0 || self.len() == 0, "window must be greater than 0");
             let remove_value_iter =
-                std::iter::repeat_n(None, window - 1).chain(self.titer().map(Some));
+                std::iter::repeat_n(None, window.saturating_sub(1)).chain(self.titer().map(Some));
             Some(
                 remove_value_iter
                     .zip(self.titer())
@@ -634,8 +635,9 @@ pub trait Vec1View<T>: TIter<T> {
             self.rolling2_apply_to::<O, _, _, _, _>(other, window, f, out);
             None
         } else {
-            assert!(window > 0, "window must be greater than 0");
-            let remove_value_iter = std::iter::repeat_n(None, window - 1)
+            // an empty series has an empty result whatever the window (callers clamp the window to the length)
+            assert!(window > 0 || self.len() == 0, "window must be greater than 0");
+            let remove_value_iter = std::iter::repeat_n(None, window.saturating_sub(1))
                 .chain(self.titer().zip(other.titer()).map(Some));
             Some(
                 remove_value_iter
@@ -752,8 +754,9 @@ pub trait Vec1View<T>: TIter<T> {
             self.rolling_apply_idx_to::<O, _, _>(window, f, out);
             None
         } else {
-            assert!(window > 0, "window must be greater than 0");
-            let start_iter = std::iter::repeat_n(None, window - 1).chain((0..self.len()).map(Some)); // this is longer than expect, but start_iter will stop earlier
+            // an empty series has an empty result whatever the window (callers clamp the window to the length)
+            assert!(window > 0 || self.len() == 0, "window must be greater than 0");
+            let start_iter = std::iter::repeat_n(None, window.saturating_sub(1)).chain((0..self.len()).map(Some)); // this is longer than expect, but start_iter will stop earlier
             Some(
                 self.titer()
                     .zip(start_iter)
@@ -864,8 +867,9 @@ pub trait Vec1View<T>: TIter<T> {
             self.rolling2_apply_idx_to::<O, _, _, _, _>(other, window, f, out);
             None
         } else {
-            assert!(window > 0, "window must be greater than 0");
-            let start_iter = std::iter::repeat_n(None, window - 1).chain((0..self.len()).map(Some)); // this is longer than expect, but start_iter will stop earlier
+            // an empty series has an empty result whatever the window (callers clamp the window to the length)
+            assert!(window > 0 || self.len() == 0, "window must be greater than 0");
+            let start_iter = std::iter::repeat_n(None, window.saturating_sub(1)).chain((0..self.len()).map(Some)); // this is longer than expect, but start_iter will stop earlier
             Some(
                 self.titer()
                     .zip(other.titer())
